@@ -90,3 +90,13 @@ package access
 //@   requires g != nil && istype(g.blockedNets, netutil.SliceSubnetSet)
 //@   modifies nothing
 //@   ensures blocked-exactly-inside-a-configured-subnet: blocked == inNets(g.blockedNets.(netutil.SliceSubnetSet), ip)
+
+// The global blocked-name rules: the verdict of the global engine for exactly
+// the name and type it is asked about - a matching allow rule (a rule with @@)
+// lets the name through, any other match rejects it.
+//@ func (*Global).IsBlockedHost
+//@   property C10
+//@   requires g != nil && g.blockedHostsEng != nil
+//@   modifies nothing
+//@   atcall MatchRequest assert asked-about-this-name-and-type: arg1.Hostname == host && arg1.DNSType == qt && !arg1.Answer
+//@   ensures the-global-engines-verdict-for-this-name-and-type: blocked == nameRuleBlocked(g.blockedHostsEng, host, qt)
